@@ -1,4 +1,4 @@
-// ---- contract-only RecordValue conversions (proved on the real functions by the Kani unit wr_k) ----
+// ---- RecordValue conversions: to_f64 contract-only (float arithmetic; proved on the real function by the Kani unit wr_k), to_i64 verified here ----
 /// the real value of a record (scaled integers after scale and offset): to_f64's result
 uninterp spec fn real_f64(v: RecordValue, dt: RecordDataType) -> f64;
 spec fn int_of(v: RecordValue) -> i64 { match v { RecordValue::Integer(i) => i, _ => 0 } }
@@ -7,8 +7,8 @@ impl RecordValue {
     fn to_f64(&self, dt: &RecordDataType) -> (r: Result<f64>)
         ensures (r is Err) == (self is ScaledInteger && !(dt is ScaledInteger)), r is Ok ==> r->Ok_0 == real_f64(*self, *dt), r is Err ==> r->Err_0 is Internal
     { unimplemented!() }
-    #[verifier::external_body]
-    fn to_i64(&self, dt: &RecordDataType) -> (r: Result<i64>)
+//@fn src/record.rs RecordValue to_i64 serves=C14,C10 ret=r
+//@sig
         ensures (r is Ok) == (self is Integer && dt is Integer), r is Ok ==> r->Ok_0 == int_of(*self), r is Err ==> r->Err_0 is Internal
-    { unimplemented!() }
+//@endfn
 }
